@@ -138,6 +138,8 @@ class ParserProgram:
         self.CST = {n: i for i, n in enumerate(T.structs['Cst'])}
         self.node_rule = T.enums['Node'].index('Rule')
         self.rule_names = T.enums['Rule']       # PascalCase as emitted
+        self.PS = {n: i for i, n in enumerate(T.structs['ParserState'])}
+        self.MT = {n: i for i, n in enumerate(T.structs['MarkTruncation'])}
         B = self.prog.byname
         self.f_new = B['Parser::new_with_context']
         self.f_children = B['Cst::children']; self.f_next = B['<CstChildren as Iterator>::next']
@@ -177,8 +179,9 @@ def run_path(pp, solver, tvars, entry, n, decisions, extra_pc=(), nd_shared=None
     snaps = {}
     def snap(parser, diags):
         d = parser.f[P['cst']].f[CST['data']]
+        en = parser.f[P['error_node']]
         return (parser.f[P['pos']], tokterm(parser.f[P['current']].disc), d.f[CD['token_count']], d.f[CD['non_skip_len']],
-                [node_plain(x, pp) for x in d.f[CD['nodes']].items], len(diags.items))
+                [node_plain(x, pp) for x in d.f[CD['nodes']].items], len(diags.items), en.f[0].f[0] if en.disc == 1 else None)
     def post_get(m, fn, args, ret):
         parser = args[0].get(); diags = args[1]
         dv = diags.items if diags.__class__ is SliceRef else diags.get().items
@@ -189,12 +192,36 @@ def run_path(pp, solver, tvars, entry, n, decisions, extra_pc=(), nd_shared=None
         parser = args[0].get(); st = args[1].get(); diags = args[2].get()
         s0 = snaps.get(id(st))
         if s0 is not None:
-            states.append((s0[1], snap(parser, diags)))
+            b, a = list(s0[1]), list(snap(parser, diags))
+            # the placeholder of an error node that is still open is transient (it is overwritten when the node is closed)
+            m = b[6]
+            if m is not None and m < len(b[4]) and m < len(a[4]): b[4] = list(b[4]); a[4] = list(a[4]); b[4][m] = a[4][m] = 'open-error-node'
+            states.append((tuple(b[:6]), tuple(a[:6])))
+        if pending_del:
+            lp, gone = pending_del.pop()
+            dels = [(e[2], e[1]) for e in log[lp:] if e[0] == 2]
+            for idx, rid in gone:
+                if (idx, rid) not in dels:
+                    final.append(('missing-delete', f'node {idx} ({pp.h.rule_names[rid]}) was announced by a create callback and discarded by backtracking without a delete callback (deletes seen: {dels})'))
+    announced = []; pending_del = []; final = []
+    def pre_set(m, fn, args):
+        parser = args[0].get(); st = args[1].get()
+        nc = st.f[pp.PS['truncation_mark']].f[pp.MT['node_count']]
+        items = parser.f[P['cst']].f[CST['data']].f[CD['nodes']].items
+        gone = []
+        for idx in range(nc, len(items)):
+            for o, rid in announced:
+                if o is items[idx]: gone.append((idx, rid))
+        pending_del.append((len(log), gone))
+        announced[:] = [(o, rid) for o, rid in announced if not any(o is x for x in items[nc:])]
+    r.hooks['Parser::set_state'] = pre_set
     def on_ev(m, fn, args):
         # create_node_* callback fires: the announced node must already head a closed, properly nested subtree
         if args[1] != 1: return
         parser = args[0].get(); node = args[3]
         d = parser.f[P['cst']].f[CST['data']]
+        its = d.f[CD['nodes']].items
+        if 0 <= node < len(its): announced.append((its[node], args[2]))
         nodes = [node_plain(x, pp) for x in d.f[CD['nodes']].items]
         if not (0 <= node < len(nodes)) or nodes[node][0] != 'R':
             cbinfo.append(f'create callback for NodeRef({node}) which is not a rule node (vector length {len(nodes)})'); return
@@ -246,7 +273,7 @@ def run_path(pp, solver, tvars, entry, n, decisions, extra_pc=(), nd_shared=None
     res.steps = r.steps
     res.decisions = list(r.decisions); res.forks = r.forks
     res.diags = [(d.f[0].f[0], d.f[0].f[1], d.f[1], int(d.f[2]), d.f[3]) for d in diags.items]
-    res.log = log; res.states = states; res.cb = cbinfo; res.final = None
+    res.log = log; res.states = states; res.cb = cbinfo; res.final = final
     res.nodes = None; res.walk = None; res.walk_err = None
     if cst is not None:
         data = cst.f[CST['data']]
